@@ -13,7 +13,9 @@ var smallAlphabet = []string{"SELECT", "1", "a", "(", ")", ",", "FROM", "AS", "I
 	// number tokens of every lexical form (a NUMBER that starts with a dot directly after a name is a tuple access)
 	".1e5", ".5", ".99999999999999999999", "1e5", "0x1F", "1.", "1e+", "{p:UInt8}",
 	// here-documents, with ASCII and multi-byte tags, closed and not
-	"$é$$é$", "$дата$x$дата$", "$t$ x $t$", "$$x$$", "$a$"}
+	"$é$$é$", "$дата$x$дата$", "$t$ x $t$", "$$x$$", "$a$",
+	// a dot, digits and an exponent letter with nothing behind it (the look-ahead window ends there), with 31 digits, and friends
+	".1e", ".1E", "1e", ".1234567890123456789012345678901e5", "0x", "0b", "b'111111111'", "x'4'", "respect", "ignore", "nulls"}
 
 var stmtPrefixes = []string{"", "SELECT", "SELECT 1", "SELECT a FROM t", "SELECT * ", "SELECT 1 INTERSECT SELECT 2", "CREATE TABLE t", "ALTER TABLE t", "INSERT INTO t", "WITH",
 	"SELECT f(", "SELECT substring(", "CREATE DICTIONARY d (k UInt64) PRIMARY KEY k", "SELECT 1 GROUP BY", "EXPLAIN", "SHOW", "SYSTEM", "GRANT", "RENAME", "EXCHANGE",
